@@ -33,24 +33,21 @@ COQ_TARGETS = ["Models/C13_quadrature.vo"]
 LEVEL_NOTE = ("theorems are about the Gallina model (gh_rule, moment functional); the premise of the main theorem for "
               "numpy's hermgauss nodes is a numerically validated hypothesis (mpmath, 50 digits); tie to /repo is "
               "differential (public outputs, float64 vs exact rationals / 40-digit mpmath evaluation of expr terms)")
-IMPORTS = ("From Coq Require Import List ZArith QArith Qcanon.\n"
+IMPORTS = ("From Coq Require Import List ZArith QArith Qcanon String.\n"
            "From GPV Require Import Base.LinAlg Base.Exec Base.Expr Models.C13_quadrature.")
 
 torch.set_default_dtype(torch.float64)
 mp.mp.dps = 40
-sys.set_int_max_str_digits(0)     # packed model results are single very long integers
+sys.set_int_max_str_digits(0)
 
 
-def coq_run(tag, fn, cases, files=16):
-    """run `fn` of Models/C13_quadrature.v on the cases; results come back packed (see `pack` there)"""
+def coq_run(tag, fn, cases, files=16, strings=False):
+    """run `fn` of Models/C13_quadrature.v on the cases.  strings=True: results made of very large integers are
+    returned as decimal strings (Coq's own printing of a large Z is far slower than computing it)"""
     shard = max(1, -(-len(cases) // files))
-    res = C.coq_run_cases(tag, IMPORTS, "Definition run c := pack (%s c)." % fn, cases, shard=shard)
-    outl = []
-    for L, k, N in res:
-        mask = (1 << L) - 1
-        fields = [(N >> (L * (k - 1 - i))) & mask for i in range(k)]
-        outl.append([-(f >> 1) if f & 1 else (f >> 1) for f in fields])
-    return outl
+    rd = "Definition run c := strs (%s c)." % fn if strings else "Definition run := %s." % fn
+    return C.coq_run_cases(tag, IMPORTS, rd, cases, shard=shard)
+
 
 EPS64, EPS32 = 2.0 ** -52, 2.0 ** -23
 NS = [3, 5, 10, 20, 30]
@@ -214,17 +211,17 @@ def fam_expect(out, cases, tag="C13_expect"):
             owner.append((ci, j))
     order = list(range(len(coq)))
     random.Random(1).shuffle(order)                      # spread the expensive high-degree cases over the shards
-    res_sh = coq_run(tag, "run_expect", [coq[i] for i in order])
+    res_sh = coq_run(tag, "run_expect", [coq[i] for i in order], strings=True)
     res = [None] * len(coq)
     for pos, i in enumerate(order):
         res[i] = res_sh[pos]
     model = {}
     for (ci, j), r in zip(owner, res):
         rd = C.Reader(r)
-        a, b = rd.q(), rd.q()
-        if a != b:
+        same, a = rd.int(), rd.q()
+        if same != 1:
             out.fail("model:expect-forms-disagree", "binomial and recurrence forms of the normal moments disagree in the model",
-                     dict(cases[ci], element=j), impl=float(a), model=float(b))
+                     dict(cases[ci], element=j), model=float(a))
         model[(ci, j)] = a
     for ci, c in enumerate(cases):
         n, p, shape = c["n"], c["p"], c["shape"]
@@ -284,8 +281,9 @@ def gen_expect(rng, tier):
                     sd=[dyadic(rng, 6, emin, 4) for _ in range(cnt)])
     for n in NS:
         for deg in range(2 * n):                           # every degree 0..2n-1: monomial + random polynomial
-            cases.append(draw(n, deg, "monomial", shape=() if deg % 3 else None))
-            cases.append(draw(n, deg, "random", shape=() if deg % 3 != 1 else None))
+            batchy = (deg % 3 == 0) if deg < 16 else (deg % 10 == 9)      # high degrees are expensive in exact arithmetic
+            cases.append(draw(n, deg, "monomial", shape=None if batchy else ()))
+            cases.append(draw(n, deg, "random", shape=() if batchy else (None if deg < 16 else ())))
         for kind in ("monomial", "random"):                # degree 2n: sharpness
             cases.append(draw(n, 2 * n, kind, shape=(3,)))
         for _ in range(3 if tier == "quick" else 12):      # nodes built in the float32 default dtype
@@ -313,7 +311,7 @@ def fam_rule(out, cases, tag="C13_rule"):
         for j, (m, s) in enumerate(zip(c["m"], c["s"])):
             coq.append("(%s, %s, %s, %s, %s)" % (C.qc_vec(ts), C.qc_vec(ws), C.qc_lit(s), C.qc_lit(m), C.qc_vec(c["p"])))
             owner.append((ci, j))
-    res = coq_run(tag, "run_rule_poly", coq)
+    res = coq_run(tag, "run_rule_poly", coq, files=8, strings=True)
     model = {o: C.Reader(r).expr() for o, r in zip(owner, res)}
     for ci, c in enumerate(cases):
         q = get_quad(c["n"], c["default"])
@@ -462,7 +460,7 @@ def fam_cond(out, cases, tag="C13_cond"):
                     owner.append((ci, b, i, off, "par"))
                     coq.append("(%d, %s)" % (KTAG[kind], C.qc_vec(a + [y, f])))
                     owner.append((ci, b, i, off, "logp"))
-    res = coq_run(tag, "run_formula", coq)
+    res = coq_run(tag, "run_formula", coq, files=4)
     model = {}
     for o, r in zip(owner, res):
         rd = C.Reader(r)
@@ -509,8 +507,11 @@ def fam_cond(out, cases, tag="C13_cond"):
                 if kind == "bern":
                     chk("probs", pars["probs"][b][i], model[(ci, b, i, 0, "par")][0], "bernoulli:forward:probs")
                     pr = float(mp.ncdf(f)) if y == 1 else float(mp.ncdf(-f))
-                    if 1e-12 < pr < 1 - 1e-9:          # torch clamps Bernoulli probs to [eps, 1-eps] in log_prob
-                        chk("log_prob", lp[b][i], lm, "bernoulli:forward:log_prob")
+                    if pr > 1e-12:          # torch clamps Bernoulli probs to [eps, 1-eps] in log_prob; rounding of
+                        # probs (one ulp of 1.0) moves log P(y) by eps / P(y)
+                        if not abs(lp[b][i] - float(lm)) <= 1e-11 * (1 + abs(float(lm))) + 4 * EPS64 / pr:
+                            out.fail("bernoulli:forward:log_prob", "log_prob of the Bernoulli conditional differs from log Phi((2y-1) f)",
+                                     dict(c, b=b, i=i), impl=lp[b][i], model=float(lm))
                 elif kind in ("laplace", "student"):
                     chk("loc", pars["loc"][b][i], f, "%s:forward:loc" % kind)
                     chk("scale", pars["scale"][b][i], model[(ci, b, i, 0, "par")][0], "%s:forward:scale" % kind)
@@ -555,7 +556,7 @@ def fam_softmax(out, cases, tag="C13_softmax"):
         W = "(@None (list (list Qc)))" if c["W"] is None else "(Some %s)" % C.qc_mat(c["W"])
         for row in c["f"]:
             coq.append("(%s, %s)" % (W, C.qc_vec(row)))
-    res = coq_run(tag, "run_softmax", coq)
+    res = coq_run(tag, "run_softmax", coq, files=2)
     k = 0
     for c in cases:
         ncls = len(c["W"]) if c["W"] is not None else len(c["f"][0])
@@ -612,7 +613,7 @@ def fam_lik(out, cases, tag="C13_lik"):
                     coq.append("(%d, %s, %s, %s, %s, %s, %s)" % (KTAG[c["kind"]], "true" if c["fn"] == "elp" else "false", C.qc_vec(a),
                                                               C.qc_vec(ts), C.qc_vec(ws), C.qc_lit(c["s"][b][i]), C.qc_lit(c["m"][b][i])))
                     owner.append((ci, b, i, off))
-    res = coq_run(tag, "run_rule_lik", coq)
+    res = coq_run(tag, "run_rule_lik", coq, files=12)
     model = {o: safe_expr(r) for o, r in zip(owner, res)}
     for ci, c in enumerate(cases):
         kind, (lik, real) = c["kind"], liks[ci]
@@ -653,13 +654,19 @@ def fam_lik(out, cases, tag="C13_lik"):
 
 def gen_lik(rng, tier):
     cases = []
-    per = 2 if tier == "quick" else 8
+    quick = tier == "quick"
+    per = 1 if quick else 6
     for kind in KINDS:
         for fn in (("elp",) if kind == "bern" else ("elp", "lm")):
-            for n in NS + [None]:
+            # the printed expr has one documented log-density per node (the Beta one is ~120 tokens): the quick tier
+            # covers every n for expected_log_prob and a subset for log_marginal / Beta
+            ns = NS + [None]
+            if quick and (fn == "lm" or kind == "beta"):
+                ns = [3, 10, None] if fn == "elp" else [5, None]
+            for n in ns:
                 for _ in range(per):
-                    B = rng.choice([None, None, 2])
-                    N = rng.randint(1, 3)
+                    B = rng.choice([None, None, 2]) if (not quick or (n or 20) <= 10) else None
+                    N = rng.randint(1, 3) if (not quick or (n or 20) <= 10) else 1
                     rows = B or 1
                     cases.append(dict(fam="lik", kind=kind, fn=fn, n=n, par=draw_par(rng, kind, B), B=B, N=N,
                                       m=[[rng.randint(-48, 48) / 16.0 for _ in range(N)] for _ in range(rows)],
@@ -685,7 +692,7 @@ def fam_bern(out, cases, tag="C13_bern"):
         for j, (m, v, y) in enumerate(zip(c["m"], c["v"], c["y"])):
             coq.append("(3, %s)" % C.qc_vec([m, v])); owner.append((ci, j, "p"))
             coq.append("(4, %s)" % C.qc_vec([y, m, v])); owner.append((ci, j, "lm"))
-    res = coq_run(tag, "run_formula", coq)
+    res = coq_run(tag, "run_formula", coq, files=4)
     model = {o: C.Reader(r).expr() for o, r in zip(owner, res)}
     lik = gpytorch.likelihoods.BernoulliLikelihood()
     for ci, c in enumerate(cases):
@@ -701,8 +708,9 @@ def fam_bern(out, cases, tag="C13_bern"):
                 out.fail("bernoulli:marginal:probs", "likelihood(dist).probs differs from Phi(m / sqrt(1+v))", dict(c, element=j),
                          impl=probs[j], model=float(mp_))
             pr = float(mp.exp(ml))
-            if 1e-12 < pr < 1 - 1e-9:                       # torch's Bernoulli clamps probs to [eps, 1-eps] in log_prob
-                if not abs(lm[j] - float(ml)) <= 1e-10 * (1 + abs(float(ml))):
+            if pr > 1e-12:           # torch's Bernoulli clamps probs to [eps, 1-eps] in log_prob; rounding of probs
+                # (one ulp of 1.0) moves log P(y) by eps / P(y)
+                if not abs(lm[j] - float(ml)) <= 1e-10 * (1 + abs(float(ml))) + 4 * EPS64 / pr:
                     out.fail("bernoulli:log_marginal", "log_marginal differs from log Phi((2y-1) m / sqrt(1+v))", dict(c, element=j),
                              impl=lm[j], model=float(ml))
             if c.get("quad") and j == 0:
@@ -741,7 +749,7 @@ def fam_logphi(out, cases, tag="C13_logphi"):
         for j, z in enumerate(c["z"]):
             coq.append("(5, %s)" % C.qc_vec([z])); owner.append((ci, j, "v"))
             coq.append("(6, %s)" % C.qc_vec([z])); owner.append((ci, j, "g"))
-    res = coq_run(tag, "run_formula", coq)
+    res = coq_run(tag, "run_formula", coq, files=(4 if len(coq) < 4000 else 16))
     model = {o: C.Reader(r).expr() for o, r in zip(owner, res)}
     worst = {}
     for ci, c in enumerate(cases):
@@ -749,8 +757,12 @@ def fam_logphi(out, cases, tag="C13_logphi"):
         if c.get("shape"):
             z = z.reshape(c["shape"])
         z.requires_grad_(True)
-        val = log_normal_cdf(z)
-        val.sum().backward()
+        try:
+            val = log_normal_cdf(z)
+            val.sum().backward()
+        except Exception as e:
+            out.fail("log_normal_cdf:exception:%s" % type(e).__name__, "log_normal_cdf / its backward raised %r" % e, c)
+            continue
         val, grad = val.reshape(-1).tolist(), z.grad.reshape(-1).tolist()
         for j, zz in enumerate(c["z"]):
             mv, mg = model[(ci, j, "v")], model[(ci, j, "g")]
@@ -771,12 +783,12 @@ def fam_logphi(out, cases, tag="C13_logphi"):
 
 
 def gen_logphi(rng, tier):
-    npts = 3000 if tier == "quick" else 20000
+    npts = 700 if tier == "quick" else 20000
     zs = [float(x) for x in np.linspace(-40.0, 10.0, npts)]
     for b in (-1.0, -0.2, 0.2):
         zs += [b, float(np.nextafter(b, -50)), float(np.nextafter(b, 50)), b - 1e-9, b + 1e-9]
     zs += [0.0, -0.0, 1e-300, -1e-300, -38.5, 8.3, 37.0]
-    zs += [rng.uniform(-3, 1) for _ in range(300)] + [rng.uniform(-1.5, -0.9) for _ in range(200)]
+    zs += [rng.uniform(-3, 1) for _ in range(150)] + [rng.uniform(-1.5, -0.9) for _ in range(100)]
     cases = []
     for k in range(0, len(zs), 500):
         chunk = zs[k:k + 500]
@@ -813,17 +825,21 @@ def fam_trunc(out, cases):
                 errs.append(abs(got - float(tr)))
             out.case(dict(fam="trunc", kind=kind, m=m, v=v, y=y, par=c["par"]), True, label="trunc:" + kind)
             scale = 1 + abs(float(tr))
+            # envelopes are the harness's choice (the property does not quantify the truncation error): a decade above
+            # the worst seen over several hundred draws; a wrong node scale / weight factor shifts every n by >= 5e-2
             if kind == "bern":
                 env = [2e-2, 4e-3, 3e-3, 3e-3, 3e-3]       # floor: log_normal_cdf's own 2e-3
             elif kind == "laplace":
                 b = math.sqrt(real["noise"][0])
                 env = [2.0 * math.sqrt(v) / b / math.sqrt(n) for n in NS]      # kink: slow, O(n^-1/2) envelope
             else:
-                env = [1e-1, 3e-2, 2e-3, 1e-4, 1e-5]
+                env = [1.0, 3e-1, 1e-1, 3e-2, 1e-2]
             t = table.setdefault(kind, [0.0] * len(NS))
             for k in range(len(NS)):
                 t[k] = max(t[k], errs[k] / scale)
             bad = [NS[k] for k in range(len(NS)) if not errs[k] <= env[k] * scale]
+            if kind != "laplace" and not errs[-1] <= 0.5 * errs[0] + 3e-3 * scale:      # "shrinking as nodes are added"
+                bad.append("no-shrink")
             key = "truncation:%s" % kind
             if kind == "beta" and off_doc == 0 and bad:
                 a1 = par_args(kind, real, 0, 1)
